@@ -593,9 +593,9 @@ fn check_bufsim(o: &Opts, prop: Prop) {
 	println!("runs={} steps={} distinct_nontrivial={} tuples={} wall={:.1}s batch_digest={:016x}", runs, steps, nontrivial.len(), stats.tuples.len(), wall, digest);
 	if !o.no_evidence {
 		let rule = match prop {
-			Prop::C04 => "one case = one seeded history (initial buffer by one of 8 routes x generated text x spare capacity, then setter / resolve / convert / PathMut burst / AuthorityMut burst / direct PathBuf call / roundtrip / clone steps, handle lifecycle faults inside bursts); non-trivial = at least one step changed the buffer text; distinct = distinct hash of the concrete trace (counted with a hash set)",
-			Prop::C10 => "one case = one seeded history dominated by bursts of path edits through one PathMut (stand-alone PathBuf or embedded in the four owned URI/IRI types), each burst run twice (continued handle vs fresh handle per edit) plus once on a stand-alone twin; non-trivial = some burst of >= 2 operations changed the text through the handle; distinct = distinct hash of the concrete trace (hash set)",
-			Prop::C11 => "one case = one seeded history dominated by bursts of set_userinfo/set_host/set_port/read through one AuthorityMut on the four owned URI/IRI types, each burst run twice (continued handle vs fresh handle per call); non-trivial = some burst of >= 2 operations changed the text through the handle; distinct = distinct hash of the concrete trace (hash set)",
+			Prop::C04 => "one case = one seeded history (initial buffer by one of 8 routes x generated text x spare capacity, then setter / resolve / convert / PathMut burst / AuthorityMut burst / direct PathBuf call / roundtrip / clone steps, handle lifecycle faults inside bursts); non-trivial = at least one step changed the buffer text; distinct = distinct hash of the concrete trace (counted with a hash set, capped at 2 000 000 entries per worker: a lower bound once the cap is reached)",
+			Prop::C10 => "one case = one seeded history dominated by bursts of path edits through one PathMut (stand-alone PathBuf or embedded in the four owned URI/IRI types), each burst run twice (continued handle vs fresh handle per edit) plus once on a stand-alone twin; non-trivial = some burst of >= 2 operations changed the text through the handle; distinct = distinct hash of the concrete trace (hash set, capped at 2 000 000 entries per worker: a lower bound once the cap is reached)",
+			Prop::C11 => "one case = one seeded history dominated by bursts of set_userinfo/set_host/set_port/read through one AuthorityMut on the four owned URI/IRI types, each burst run twice (continued handle vs fresh handle per call); non-trivial = some burst of >= 2 operations changed the text through the handle; distinct = distinct hash of the concrete trace (hash set, capped at 2 000 000 entries per worker: a lower bound once the cap is reached)",
 		};
 		let ev = json!({
 			"property_id": prop.id(),
@@ -763,7 +763,7 @@ fn check_itersim(o: &Opts) {
 			"coverage": {
 				"evaluations": runs,
 				"distinct_nontrivial": distinct.len(),
-				"rule": "one case = (family, generated stand-alone path, schedule of n+3 front/back steps, segments() or normalized_segments()); every step is compared with a VecDeque of the independent '/'-split by text and byte offset; derived queries checked on the same path; non-trivial = path longer than one byte; distinct = distinct hash of (family, path, schedule, iterator kind) (hash set)",
+				"rule": "one case = (family, generated stand-alone path, schedule of n+3 front/back steps, segments() or normalized_segments()); every step is compared with a VecDeque of the independent '/'-split by text and byte offset; derived queries checked on the same path; non-trivial = path longer than one byte; distinct = distinct hash of (family, path, schedule, iterator kind) (hash set, capped at 2 000 000 entries per worker: a lower bound once the cap is reached)",
 				"samples": samples,
 				"exhaustive": false,
 				"engine": "itersim",
@@ -940,7 +940,7 @@ fn check_allocsim(o: &Opts) {
 			"coverage": {
 				"evaluations": runs,
 				"distinct_nontrivial": distinct.len(),
-				"rule": "one case = (one of the 20 borrowed types, generated valid text or a corrupted/ill-formed variant); the constructor and then every read accessor of that type run each inside its own allocator window in which any request is a fault; returned slices are located relative to the input by pointer difference; non-trivial = non-empty input; distinct = distinct hash of (type, input) (hash set)",
+				"rule": "one case = (one of the 20 borrowed types, generated valid text or a corrupted/ill-formed variant); the constructor and then every read accessor of that type run each inside its own allocator window in which any request is a fault; returned slices are located relative to the input by pointer difference; non-trivial = non-empty input; distinct = distinct hash of (type, input) (hash set, capped at 2 000 000 entries per worker: a lower bound once the cap is reached)",
 				"samples": samples,
 				"exhaustive": false,
 				"engine": "allocsim",
